@@ -134,6 +134,9 @@ func init() {
 			// round-trip contract: Parse(u.String()) gives back u's components
 			for i, f := range urlStrFields {
 				sv.Fields[fieldIndex(t, f)] = s.Args[i]
+				if f == "Fragment" {
+					sv.Fields[fieldIndex(t, "RawFragment")] = s.Args[i] // the fragment as it stands in the string
+				}
 			}
 			return Tuple{Ptr{Obj: ex.newObj(sv, t)}, Iface{}}
 		}
@@ -158,9 +161,31 @@ func init() {
 		t := ex.urlType()
 		var args []*Term
 		for _, f := range urlStrFields {
-			args = append(args, sv.Fields[fieldIndex(t, f)].(*Term))
+			v := sv.Fields[fieldIndex(t, f)].(*Term)
+			if f == "Fragment" {
+				// EscapedFragment: a RawFragment that was set next to Fragment is what String emits
+				if rf := sv.Fields[fieldIndex(t, "RawFragment")].(*Term); !rf.IsLit() || rf.S != "" {
+					v = rf
+				}
+			}
+			args = append(args, v)
 		}
 		return UF("url.str", SSeq, args...)
+	})
+	reg("(*net/url.URL).EscapedFragment", func(ex *Exec, fn *ssa.Function, a []Value) Value {
+		if ex.realBody("url.String") {
+			return ex.callBody(fn, a)
+		}
+		sv := ex.urlStruct(a[0])
+		t := ex.urlType()
+		if rf := sv.Fields[fieldIndex(t, "RawFragment")].(*Term); !rf.IsLit() || rf.S != "" {
+			return rf
+		}
+		fr := sv.Fields[fieldIndex(t, "Fragment")].(*Term)
+		if fr.IsLit() {
+			return StrLit((&url.URL{Fragment: fr.S}).EscapedFragment())
+		}
+		return fr
 	})
 	reg("(*net/url.URL).Hostname", func(ex *Exec, fn *ssa.Function, a []Value) Value {
 		sv := ex.urlStruct(a[0])
